@@ -84,16 +84,18 @@ func buildWorld(base string, dsse bool) *world {
 	fmid := gen.NewCert(gen.Key("p256f"), froot, gen.Attr{CN: "foreign intermediate"}, true, nb, na)
 	C6 := gen.NewCert(gen.Key("ed7"), fmid, good, false, nb, na)
 	C7 := gen.NewCert(gen.Key("ed8"), mid, good, false, nb, na)
+	// a certificate from the layout's CA that simply does not carry the constrained attribute
+	C8 := gen.NewCert(gen.Key("ed9"), root, gen.Attr{CN: "f"}, false, nb, na)
 	w.inter = []*gen.Cert{mid, fmid}
 	w.root = root
 	w.fun = map[string]functionary{
 		"K1": {K1.ID, ""}, "K2": {K2.ID, ""}, "K3": {K3.ID, ""}, "KT": {KT.ID, ""}, "KX": {KX.ID, ""},
 		"C1": {C1.AsKey.KeyID, "good"}, "C2": {C2.AsKey.KeyID, "good"}, "C3": {C3.AsKey.KeyID, "expired"},
 		"C4": {C4.AsKey.KeyID, "foreign"}, "C5": {C5.AsKey.KeyID, "badorg"},
-		"C6": {C6.AsKey.KeyID, "foreign"}, "C7": {C7.AsKey.KeyID, "good"},
+		"C6": {C6.AsKey.KeyID, "foreign"}, "C7": {C7.AsKey.KeyID, "good"}, "C8": {C8.AsKey.KeyID, "noorg"},
 	}
 	signer := map[string]intoto.Key{"K1": K1.Full, "K2": K2.Full, "K3": K3.Full, "KT": KT.Full, "KX": KX.Full,
-		"C1": C1.Signer, "C2": C2.Signer, "C3": C3.Signer, "C4": C4.Signer, "C5": C5.Signer, "C6": C6.Signer, "C7": C7.Signer}
+		"C1": C1.Signer, "C2": C2.Signer, "C3": C3.Signer, "C4": C4.Signer, "C5": C5.Signer, "C6": C6.Signer, "C7": C7.Signer, "C8": C8.Signer}
 
 	mk := func(id, file string, signers ...string) string {
 		d := gen.FreshDir(w.dir, id)
@@ -193,6 +195,27 @@ func buildWorld(base string, dsse bool) *world {
 	honest("c5", "C5")
 	honest("c6", "C6")
 	honest("c7", "C7")
+	honest("c8", "C8")
+	// two signature entries under the functionary's key id: the genuine one and a worthless one, in either order
+	for _, v := range []struct {
+		id           string
+		genuineFirst bool
+	}{{"dupA", true}, {"dupB", false}} {
+		p := mk(v.id, shortName("s", K2.ID), "K2")
+		gen.EditJSONFile(p, func(doc map[string]any) {
+			sigs := doc["signatures"].([]any)
+			worthless := map[string]any{"keyid": K2.ID, "sig": "00"}
+			if dsse {
+				worthless["sig"] = "AA=="
+			}
+			if v.genuineFirst {
+				doc["signatures"] = append(sigs, worthless)
+			} else {
+				doc["signatures"] = append([]any{worthless}, sigs...)
+			}
+		})
+		add(item{ID: v.id, File: shortName("s", K2.ID), Signers: []sigDesc{{"K2", v.genuineFirst}}})
+	}
 	// truncated JSON
 	d := gen.FreshDir(w.dir, "trunc")
 	raw, _ := os.ReadFile(filepath.Join(w.dir, "h1", shortName("s", K1.ID)))
@@ -622,7 +645,7 @@ func replay(c *mcx.Ctx, raw json.RawMessage) (string, string) {
 func init() {
 	mcx.Register(&mcx.Driver{
 		ID: "C02", Run: run, Replay: replay,
-		Rule: "every population (subset of size <= 3 quick / <= 4 thorough) of a 24-element catalogue of link files for step s (honest by authorised / unlisted / foreign-step keys, tampered, unsigned, misnamed, doubly signed (the functionary's signature first or second), forged claimed key id, certificate-signed with good/expired/foreign-root/constraint-violating chains, directly below a root or below an intermediate listed in the layout (one under the layout root, one under a foreign root), truncated, a layout, a directory) " +
+		Rule: "every population (subset of size <= 3 quick / <= 4 thorough) of a 27-element catalogue of link files for step s (honest by authorised / unlisted / foreign-step keys, tampered, unsigned, misnamed, doubly signed (the functionary's signature first or second), with a second worthless entry under the functionary's own key id (after / before the genuine one), forged claimed key id, certificate-signed with good/expired/foreign-root/constraint-violating/attribute-lacking chains, directly below a root or below an intermediate listed in the layout (one under the layout root, one under a foreign root), truncated, a layout, a directory) " +
 			"x threshold 1..3 x authorisation {keys, certificate constraint, mixed} x {legacy, DSSE}; for each, InTotoVerify is executed under EVERY iteration order of the per-link counting loop (full permutations; thorough adds one order deviation at every other map range for populations <= 2). " +
 			"A case = one (population, threshold, mode, wrapper), distinct by construction; non-trivial = non-empty population with at least one authorised valid signer. states = populations materialised, transitions = choice points passed.",
 		Assumptions: []string{
